@@ -13,7 +13,8 @@
 \* the deviation layer's verdict (dev).
 EXTENDS Integers, Sequences, FiniteSets, TLC, Json
 
-CONSTANTS MaxInst, MaxOps, Emit
+CONSTANTS MaxInst, MaxOps, Emit,
+          Vias    \* subset of {"direct", "helper", "this-call"} explored in this run
 
 Types == {"int", "string", "array", "U", "W"}     \* two user classes: instantiations that differ only by class name
 Kinds == Types \cup {"X"}                          \* X: an unrelated class, accepted by nobody
@@ -27,7 +28,8 @@ ArgChoices == [Box |-> {<<t>> : t \in Types},
 Classes == {"Box", "Pair", "Repo"}
 \* where the write is written: at its own source position, or inside a helper function shared by every
 \* instance (one write site executed for different instantiations -- anything cached per site must not decide)
-Vias == {"direct", "helper"}
+\* this-call: the typed method is reached from inside the class, through $this, by an untyped relay method
+AllVias == {"direct", "helper", "this-call"}
 
 VARIABLES insts,   \* sequence of [cls, args]
           decl,    \* mechanism: decl[cls][member] = "T" (still generic) or the concrete type written into the shared declaration
@@ -50,6 +52,7 @@ Accepts(ins, i, m, k) == k = ins[i].args[Members[ins[i].cls][m]]
 
 Write(i, m, k, via) ==
   /\ i \in 1..Len(insts) /\ n < MaxOps /\ m \in DOMAIN Members[insts[i].cls]
+  /\ (via = "this-call" => IsParam[insts[i].cls][m])
   /\ LET c == insts[i].cls
          own == insts[i].args[Members[c][m]]
          \* deviation layer: a property lookup pins the shared declaration on first use; parameters are unchecked
